@@ -1,5 +1,106 @@
-"""translator piece for C15: Telnet protocol constants and reply limits"""
-from translate import HEADER, TranslateError, _module_consts, _self_attr_const
+"""translator piece for C15: Telnet protocol constants, reply limits, and -- read off the AST of both transports -- the reply
+table of `_handle_control_chars_response`, whether a completed command is counted, and the comparison that ends negotiation mode"""
+import ast
+from translate import HEADER, REPO, TranslateError, _module_consts, _self_attr_const
+
+FILES = {"sync": ("scrapli/transport/plugins/telnet/transport.py", "TelnetTransport"),
+         "async": ("scrapli/transport/plugins/asynctelnet/transport.py", "AsynctelnetTransport")}
+
+
+def _cls(rel, name):
+    for n in ast.parse((REPO / rel).read_text()).body:
+        if isinstance(n, ast.ClassDef) and n.name == name:
+            return n
+    raise TranslateError(f"{rel}: class {name} not found")
+
+
+def _method(cls, name):
+    for n in cls.body:
+        if isinstance(n, (ast.FunctionDef, ast.AsyncFunctionDef)) and n.name == name:
+            return n
+    return None
+
+
+def _name(n):
+    return n.id if isinstance(n, ast.Name) else None
+
+
+def _reply_rows(rel, cname, consts):
+    """rows (cmd, special option | None, answer verb) in source order, from the if/elif chain of the `len(control_buf) == 2` branch"""
+    f = _method(_cls(rel, cname), "_handle_control_chars_response")
+    if f is None:
+        raise TranslateError(f"{rel}: _handle_control_chars_response not found")
+    branch = None
+    for n in ast.walk(f):
+        if isinstance(n, ast.If) and ast.unparse(n.test).replace(" ", "") == "len(control_buf)==2":
+            branch = n
+    if branch is None:
+        raise TranslateError(f"{rel}: no `len(control_buf) == 2` branch")
+    chain = [s for s in branch.body if isinstance(s, ast.If)]
+    if len(chain) != 1:
+        raise TranslateError(f"{rel}: expected exactly one if/elif reply chain, found {len(chain)}")
+    rows, node = [], chain[0]
+
+    def answer(body):
+        calls = [s.value for s in body if isinstance(s, ast.Expr) and isinstance(s.value, ast.Call)]
+        if len(calls) != 1 or len(body) != 1:
+            raise TranslateError(f"{rel}: a reply branch must be a single write call: {ast.unparse(body)[:80]}")
+        arg = calls[0].args[0] if calls[0].args else None
+        # IAC + VERB + c
+        if not (isinstance(arg, ast.BinOp) and isinstance(arg.left, ast.BinOp) and _name(arg.left.left) == "IAC" and _name(arg.right) == "c"):
+            raise TranslateError(f"{rel}: reply is not `IAC + <verb> + c`: {ast.unparse(calls[0])}")
+        v = _name(arg.left.right)
+        if v not in consts:
+            raise TranslateError(f"{rel}: unknown verb {v}")
+        return v
+
+    def tests(t):
+        """list of (cmd name, special option name | None)"""
+        src = ast.unparse(t).replace(" ", "").replace("(", "").replace(")", "")
+        if isinstance(t, ast.BoolOp) and isinstance(t.op, ast.And) and len(t.values) == 2:
+            a, b = (ast.unparse(v).replace(" ", "").replace("(", "").replace(")", "") for v in t.values)
+            if a.startswith("cmd==") and b.startswith("c=="):
+                return [(a[5:], b[3:])]
+        if isinstance(t, ast.Compare) and _name(t.left) == "cmd" and len(t.ops) == 1:
+            if isinstance(t.ops[0], ast.Eq):
+                return [(_name(t.comparators[0]), None)]
+            if isinstance(t.ops[0], ast.In) and isinstance(t.comparators[0], ast.Tuple):
+                return [(_name(e), None) for e in t.comparators[0].elts]
+        raise TranslateError(f"{rel}: reply test of an unknown shape: {src}")
+
+    while True:
+        ans = answer(node.body)
+        for cmd, special in tests(node.test):
+            if cmd not in consts or (special is not None and special not in consts):
+                raise TranslateError(f"{rel}: unknown constant in reply test {cmd}/{special}")
+            rows.append((cmd, special, ans))
+        if len(node.orelse) == 1 and isinstance(node.orelse[0], ast.If):
+            node = node.orelse[0]
+        elif not node.orelse:
+            break
+        else:
+            raise TranslateError(f"{rel}: reply chain ends in an else branch")
+    # whether a completed command is counted: a call in that branch to a method of the class that increments the counter
+    cls = _cls(rel, cname)
+    counts = False
+    for s in ast.walk(branch):
+        if isinstance(s, ast.Call) and isinstance(s.func, ast.Attribute) and _name(s.func.value) == "self":
+            m = _method(cls, s.func.attr)
+            if m is not None and any(isinstance(x, ast.AugAssign) and isinstance(x.op, ast.Add) and ast.unparse(x.target) == "self._control_char_sent_counter"
+                                     for x in ast.walk(m)):
+                counts = True
+        if isinstance(s, ast.AugAssign) and ast.unparse(s.target) == "self._control_char_sent_counter":
+            counts = True
+    # the comparison(s) that keep the transport in negotiation mode
+    cmps = set()
+    for n in ast.walk(cls):
+        if isinstance(n, ast.If) and isinstance(n.test, ast.Compare) and ast.unparse(n.test.left) == "self._control_char_sent_counter" \
+                and ast.unparse(n.test.comparators[0]) == "self._control_char_sent_limit" and any(
+                    isinstance(c, ast.Call) and ast.unparse(c.func) == "self._handle_control_chars" for b in n.body for c in ast.walk(b)):
+            cmps.add(type(n.test.ops[0]).__name__)
+    if len(cmps) != 1:
+        raise TranslateError(f"{rel}: negotiation-mode guard `counter <op> limit` not found or not uniform: {sorted(cmps)}")
+    return rows, counts, cmps.pop()
 
 
 def generate():
@@ -14,7 +115,14 @@ def generate():
         body += f"def {n} : UInt8 := {v[0]}\n"
     sl = _self_attr_const("scrapli/transport/plugins/telnet/transport.py", "TelnetTransport", "_control_char_sent_limit")
     al = _self_attr_const("scrapli/transport/plugins/asynctelnet/transport.py", "AsynctelnetTransport", "_control_char_sent_limit")
-    body += f"def syncLimit : Nat := {int(sl)}\ndef asyncLimit : Nat := {int(al)}\nend Scrapli.Gen.Telnet\n"
+    body += f"def syncLimit : Nat := {int(sl)}\ndef asyncLimit : Nat := {int(al)}\n"
+    body += ("/-- the if/elif reply chain of `_handle_control_chars_response`, in source order: (command verb, the one option it is\n"
+             "    special-cased for | none = any option, verb of the answer) -/\n")
+    for stack in ("sync", "async"):
+        rows, counts, cmp_ = _reply_rows(*FILES[stack], set(names))
+        lean_rows = ", ".join(f"({a}, {'some ' + s if s else 'none'}, {v})" for a, s, v in rows)
+        body += f"def {stack}ReplyTable : List (UInt8 × Option UInt8 × UInt8) := [{lean_rows}]\n"
+        body += f"/-- a completed command increments `_control_char_sent_counter` in this transport -/\ndef {stack}Counts : Bool := {'true' if counts else 'false'}\n"
+        body += f"/-- the comparison `counter <op> limit` that keeps the transport handling control characters -/\ndef {stack}LimitCmp : String := \"{cmp_}\"\n"
+    body += "end Scrapli.Gen.Telnet\n"
     return [("ScrapliModel/Gen/TelnetConsts.lean", body)]
-
-
